@@ -2,7 +2,7 @@
 
 spec : Script.tla - (i) reference semantics on fragment sequences, (ii) character automaton; nesting levels
        as laws on bracket-token sequences
-MC   : every script of up to 4 (thorough 5) fragments drawn from pools of code text, quoted literals,
+MC   : every script of up to 4 fragments (thorough: the full pools) drawn from pools of code text, quoted literals,
        comments, embedded expressions (padded duplicates, quotes and # inside) and a lone $:
        AutomatonAgreesWithReference, NamesFollowExpressions, OnlyEmbedsChange
 GEN  : every script is preprocessed by the real process_embedded_query_expr: output text and the
@@ -181,7 +181,9 @@ def run(run):
     wd = workdir('c18')
     try:
         thorough = run.tier == 'thorough'
-        cs = consts('scripts', maxfrags=5 if thorough else 4)
+        # thorough: the full pools (quick rotates one entry out of three of them); five fragments over the pools as they are now
+        # would be 12 million scripts, each replayed - the bound stays at four
+        cs = consts('scripts', maxfrags=4)
         if not thorough:
             # rotate a smaller pool so that the quick run stays short
             r = seed()
